@@ -40,6 +40,7 @@ pub fn exec_store(
             }
         }
     }
+    out.stats.fault("hash-and-id-entropy", 1);
     if let Some(a) = &r.abort {
         // a panic / deadlock / livelock inside the store or its workers: the map
         // stopped behaving like a map -> C09's business; the other store checks
